@@ -5,6 +5,9 @@ package main
 
 import (
 	"fmt"
+	"os"
+	"path/filepath"
+	"strconv"
 	"time"
 )
 
@@ -193,5 +196,71 @@ func runC15(h *H) {
 	ng := h.budget(150, 3000)
 	for k := 0; k < ng; k++ {
 		grpcHistory(h, "C15", g.intn(h.budget(20, 60))+6, true)
+	}
+	// playground uploads, CLI files and library CSV readers (valid and malformed)
+	runUploads(h, "C15", h.budget(200, 4000))
+	runCliAndReaders(h, "C15", h.budget(80, 1500))
+	runOapiCsv(h)
+}
+
+// object-storage (file:) CSV bodies of the OpenAPI server: loadCsvTrustMatrix / loadCsvTrustVector
+func runOapiCsv(h *H) {
+	g := h.g
+	env := newOapiEnv()
+	env.srv.UseFileURI = true
+	bdir := os.Getenv("VERIF_BUILD")
+	if bdir == "" {
+		bdir = "/verif/.build"
+	}
+	dir := filepath.Join(bdir, "oapicsv")
+	os.RemoveAll(dir)
+	os.MkdirAll(dir, 0o755)
+	defer os.RemoveAll(dir)
+	wd := 20 * time.Second
+	n := h.budget(200, 3000)
+	for k := 0; k < n; k++ {
+		dim := g.intn(4) + 1
+		recs := [][]string{{"i", "j", "v"}}
+		for _, c := range g.r.Perm(dim * dim)[:g.intn(dim*dim)+1] {
+			recs = append(recs, []string{strconv.Itoa(c / dim), strconv.Itoa(c % dim), fmtLevel(g)})
+		}
+		kind := g.pick("valid", "valid", "valid", "neg-i", "neg-j", "bad-int", "bad-float", "short-record", "long-record", "bad-header", "empty", "quote-error")
+		raw := []byte(nil)
+		switch kind {
+		case "neg-i":
+			recs = append(recs, []string{"-1", "0", "1"})
+		case "neg-j":
+			recs = append(recs, []string{"0", "-2", "1"})
+		case "bad-int":
+			recs = append(recs, []string{"one", "0", "1"})
+		case "bad-float":
+			recs = append(recs, []string{"0", "0", "lots"})
+		case "short-record":
+			recs = append(recs, []string{"0", "0"})
+		case "long-record":
+			recs = append(recs, []string{"0", "0", "1", "9"})
+		case "bad-header":
+			recs[0] = []string{"from", "to", "value"}
+		case "empty":
+			recs = nil
+		case "quote-error":
+			raw = append(csvBytes(recs), []byte("0,\"0,1\n")...)
+		}
+		g.count("oapicsv:" + kind)
+		b := raw
+		if b == nil {
+			b = csvBytes(recs)
+		}
+		path := filepath.Join(dir, fmt.Sprintf("m%d.csv", k))
+		os.WriteFile(path, b, 0o644)
+		body := mustJSON(map[string]any{"localTrust": map[string]any{"scheme": "objectstorage", "url": "file://" + path}})
+		res := env.do("POST", "/compute", body, wd)
+		parsed, ok := csvParse(b)
+		st := fmt.Sprint(res.status)
+		if res.outcome != "" {
+			st = res.outcome
+		}
+		h.emit(h.line("C15", "oapicsv").records(parsed).Bool(ok).Bar().Str(st))
+		os.Remove(path)
 	}
 }
